@@ -30,14 +30,14 @@ theorem upd_apply {α : Type} (f : Nat → α) (a b : Nat) (v : α) : upd f a v 
 structure PoolCfg where
   /-- admission holds an RWMutex in read mode from a re-check of `closed` through the
       enqueue, and Close sets `closed`/closes `stop` in write mode (BoundedBatchPool;
-      the repair proposed for BoundedPool).  `false` = BoundedPool as coded. -/
+      BoundedPool since its repair).  `false` = BoundedPool before the repair. -/
   lock : Bool
   /-- CancelAcceptedOnClose -/
   cancel : Bool
   /-- the dispatcher may extend the batch in hand with queued items -/
   batch : Bool
-  /-- proposed repair: when `submitToExecutor` gives up because of cancel-on-close the
-      dispatcher still cancels the rest of the queue (`false` = as coded: it returns) -/
+  /-- as coded since the repair: when `submitToExecutor` gives up because of cancel-on-close the
+      dispatcher still cancels the rest of the queue (`false` = before the repair: it returns) -/
   cancelFix : Bool
   deriving DecidableEq, Repr
 
@@ -158,16 +158,16 @@ inductive PoolReach (cfg : PoolCfg) : Pool → Prop
   | init : PoolReach cfg Pool.init
   | step {s s' : Pool} : PoolReach cfg s → PoolStep cfg s s' → PoolReach cfg s'
 
-/-- BoundedPool as coded -/
-def cfgBoundedPool : PoolCfg := { lock := false, cancel := false, batch := false, cancelFix := false }
-/-- BoundedPool with the proposed repair (admission lock) -/
-def cfgBoundedPoolRepaired : PoolCfg := { lock := true, cancel := false, batch := false, cancelFix := false }
+/-- BoundedPool as coded (admission lock, commit 4488b79d4) -/
+def cfgBoundedPool : PoolCfg := { lock := true, cancel := false, batch := false, cancelFix := false }
+/-- BoundedPool BEFORE the repair: closed check, then an unguarded select between `queue<-task` and `<-stop` -/
+def cfgBoundedPoolPreFix : PoolCfg := { lock := false, cancel := false, batch := false, cancelFix := false }
 /-- BoundedBatchPool as coded, default close -/
 def cfgBatchPool : PoolCfg := { lock := true, cancel := false, batch := true, cancelFix := false }
-/-- BoundedBatchPool as coded, CancelAcceptedOnClose -/
-def cfgBatchPoolCancel : PoolCfg := { lock := true, cancel := true, batch := true, cancelFix := false }
-/-- BoundedBatchPool, CancelAcceptedOnClose, with the proposed repair -/
-def cfgBatchPoolCancelRepaired : PoolCfg := { lock := true, cancel := true, batch := true, cancelFix := true }
+/-- BoundedBatchPool as coded, CancelAcceptedOnClose (dispatcher cancels the queue when it gives up, commit ff82f924c) -/
+def cfgBatchPoolCancel : PoolCfg := { lock := true, cancel := true, batch := true, cancelFix := true }
+/-- BoundedBatchPool, CancelAcceptedOnClose, BEFORE the repair -/
+def cfgBatchPoolCancelPreFix : PoolCfg := { lock := true, cancel := true, batch := true, cancelFix := false }
 
 /-! ## 2. Worker-queue LTS (BoundedWorkerQueue): admission and close under one mutex -/
 
@@ -235,8 +235,8 @@ structure MBCfg where
   nsh : Nat
   cap : Nat
   sh : Nat → Nat
-  /-- `false` = as coded: finishShardDrain re-schedules only while neither the shard nor the
-      mailbox is closed.  `true` = proposed repair: re-schedule while the mailbox context is alive. -/
+  /-- `true` = as coded (commit 63edb0069): finishShardDrain re-schedules while the mailbox context is
+      alive.  `false` = before the repair: only while neither the shard nor the mailbox is closed. -/
   repaired : Bool
 
 /-- drain goroutine instance -/
